@@ -7,5 +7,7 @@ if [ ! -x bin/gosmt ] || [ -n "$(find engine -name '*.go' -newer bin/gosmt 2>/de
   mkdir -p bin
   (cd engine && go build -o "$root/bin/gosmt" .) || { echo "ENGINE-ERROR cannot build engine"; exit 2; }
 fi
-p="$1"; t="${2:-quick}"; shift; [ $# -gt 0 ] && shift
+p="$1"; t="${2:-quick}"
+# thorough tier: a sample of discharged obligations is re-decided by z3 4.8.12 and cvc5
+[ "$t" = thorough ] && [ -z "$VERIF_CROSS" ] && export VERIF_CROSS=1; shift; [ $# -gt 0 ] && shift
 exec bin/gosmt check "$p" --tier "$t" "$@"
